@@ -89,6 +89,7 @@ def register(reg, prog):
     # ---- render: unknown paths give 4.04
     reg.contract('aiocoap.interfaces:Resource.render', params={'request': MSG}, result=MSG, verify=False, properties=P, modifies=['*'],
                  raises={'Exception': MAY}, ghost=lg_result('child_render', 'self', 'request'),
+                 ghost_exc=lambda ex, s, env, cls: s.log.append(('child_render', env['self'], env['request'], None)),
                  trusted_reason='abstract method of the resource interface (the application handler)') if 'aiocoap.interfaces:Resource.render' not in reg.contracts else None
 
     def render_exit(ex, s, entry, env, result):
@@ -104,6 +105,34 @@ def register(reg, prog):
                  raises={'NotFound': MAY, 'Exception': MAY, 'CancelledError': MAY}, modifies=['*'],
                  raises_post={'NotFound': {'only-when-no-route': lambda ctx: B(not evs(ctx.st, 'render', 'child_render'))}},
                  at_exit=render_exit, awaits={0: {'havoc': False}})
+
+    # ---- render_to_pipe: the path the server context actually takes.  The handler of the routed resource is the environment: it may
+    # raise anything (a KeyError of its own included), and only a failed ROUTE is a 4.04
+    reg.contract('aiocoap.interfaces:Resource.render_to_pipe', params={'pipe': Ref('PipeI')}, verify=False, properties=P, modifies=['*'],
+                 raises={'Exception': MAY}, ghost=lg('child_render_to_pipe', 'self', 'pipe'),
+                 ghost_exc=lambda ex, s, env, cls: s.log.append(('child_render_to_pipe', env['self'], env['pipe'])),
+                 trusted_reason='abstract method of the resource interface (the application handler, or a nested site): may raise anything, a KeyError of its own included') \
+        if 'aiocoap.interfaces:Resource.render_to_pipe' not in reg.contracts else None
+    reg.assume('A-UPA: requests carry no Uri-Path-Abbrev option (_expand_upa leaves them as they are)')
+    reg.externals['repo:aiocoap.resource:_expand_upa'] = lambda ex, st, args, kw, node: [(st, VNone())]
+
+    def rtp_exit(ex, s, entry, env, result):
+        f, r = evs(s, 'find_child'), evs(s, 'child_render_to_pipe')
+        g = [('routed-once', B(len(f) == 1 and len(r) == 1))]
+        for a, b in zip(f, r):
+            res, stripped = a[-1].items
+            g.append(('rendered-by-the-routed-resource', b[1].t == res.t))
+            g.append(('the-same-pipe-is-handed-on', b[2].t == env['request'].t))
+        return g
+
+    def rtp_not_found(ctx):
+        # C09: "any other exception ... produce[s] a bare 5.00" -- whatever the handler raises must not be mistaken for an unknown path
+        return B(not evs(ctx.st, 'child_render_to_pipe'))
+
+    reg.contract(SITE + '.render_to_pipe', params={'request': Ref('PipeI')}, properties=P + ['C09'], requires=['request.request.code is not None'],
+                 raises={'NotFound': MAY, 'Exception': MAY, 'CancelledError': MAY}, modifies=['*'],
+                 raises_post={'NotFound': {'only-when-no-route': rtp_not_found}},
+                 at_exit=rtp_exit, awaits={0: {'havoc': False}})
 
 
 def bounded(tier, seed):
